@@ -100,9 +100,10 @@ Definition requireCPU (now amt : Z) (c : ctx) : r1 :=
   if hard_stop c && live c then RTerm (kill c) TForce else
   let cpuUsed := u64 (cpu (used c) + amt) in
   if atLimit cpuUsed (cpu (hard c)) && live c then RTerm (kill c) (TCpu (cpu (hard c))) else
+  (* the CPU is recorded before the clock is looked at: it is not lost when the time limit terminates the context *)
   if trackTime c && (nextThr c <=? cpuUsed) then
-    let '(c2, t) := updateTimeUsed now (set_thr c (u64 (cpuUsed + 10000))) in
-    if t then RTerm c2 (TTime (ms (hard c))) else ROk (set_cpu c2 cpuUsed)
+    let '(c2, t) := updateTimeUsed now (set_thr (set_cpu c cpuUsed) (u64 (cpuUsed + 10000))) in
+    if t then RTerm c2 (TTime (ms (hard c))) else ROk c2
   else ROk (set_cpu c cpuUsed).
 
 Definition requireMem (amt : Z) (c : ctx) : r1 :=
@@ -176,11 +177,12 @@ Definition pop (now : Z) (m : mgr) : mres :=
     let c := cur m in
     let copy := if live c then set_st c Done else c in
     (* the parent is reinstated first, then charged: a termination while charging it leaves the stack popped *)
-    match requireCPU now (cpu (used c)) p with
+    (* memory first: charging the CPU looks at the clock and can terminate the parent *)
+    match requireMem (mem (used c)) p with
     | RTerm p' t => MTerm (mkMgr p' rest) t
     | RPanic p' => MPanic (mkMgr p' rest)
     | ROk p1 =>
-      match requireMem (mem (used c)) p1 with
+      match requireCPU now (cpu (used c)) p1 with
       | RTerm p' t => MTerm (mkMgr p' rest) t
       | RPanic p' => MPanic (mkMgr p' rest)
       | ROk p2 =>
